@@ -249,6 +249,12 @@ type c15Client struct {
 	client.Client
 	pods   map[string]*corev1.Pod
 	onList func() // one-shot hook, fired at the start of the next List (used by the overlapping-request rule only)
+
+	// fault injection (TestVerifC15ListFault only): the i-th List call since the mask was armed fails iff bit i is set,
+	// the way a cache that is not synced / an unreachable apiserver / an expired context makes client.List fail
+	failMask  int
+	listCalls int
+	faultsHit int
 }
 
 func (c *c15Client) List(_ context.Context, list client.ObjectList, opts ...client.ListOption) error {
@@ -259,6 +265,14 @@ func (c *c15Client) List(_ context.Context, list client.ObjectList, opts ...clie
 	if h := c.onList; h != nil {
 		c.onList = nil
 		h()
+	}
+	if c.failMask != 0 {
+		i := c.listCalls
+		c.listCalls++
+		if i < 16 && c.failMask&(1<<i) != 0 {
+			c.faultsHit++
+			return fmt.Errorf("injected fault: the cache is not started, can not read objects")
+		}
 	}
 	lo := &client.ListOptions{}
 	lo.ApplyOptions(opts)
@@ -1598,6 +1612,158 @@ func TestVerifC15History(t *testing.T) {
 		})
 		w.classes(c)
 		if w.reparentWithKidsAcc > 0 {
+			c.NonTrivial(w.hist)
+		}
+		if c.WantSample() {
+			c.Sample(map[string]any{"history": append([]string(nil), w.hist...), "admitted": w.modelStr()})
+		}
+	})
+}
+
+// ---------------------------------------------------------------- (1b) histories with failing pod Lists
+
+// TestVerifC15ListFault: the same request histories, but the API client the topology was given sometimes FAILS the pod
+// List it is asked for while a request is validated. The oracle is unchanged (it never looks at the fault): a quota that
+// has labelled pods must not leave the admitted set, a rejected request must leave the record byte-identical, model ==
+// record. "List failed => request rejected" is NOT asserted as such: admitting the delete of a quota without pods during
+// a fault breaks no clause of the statement (it is counted).
+func TestVerifC15ListFault(t *testing.T) {
+	c15PinGates(t)
+	rec := vk.New(t, "C15", "listFault")
+	rapid.Check(t, func(t *rapid.T) {
+		c := rec.Begin()
+		defer c.End()
+		w := c15NewWorld(nil)
+		w.style = c15GenStyle(t)
+		dead := false
+		faultReqs, faultDeletes, faultDeletesWithPods, faultIsParent, admittedDespiteFault := 0, 0, 0, 0, 0
+		// send arms the fault mask for exactly this request
+		send := func(t *rapid.T, r c15Req, mask int) {
+			shape := false
+			if mask != 0 {
+				w.hist = append(w.hist, fmt.Sprintf("fault: pod List calls with index in bitmask %b fail during the next request", mask))
+				if r.Kind == "delete" && len(w.children(r.Name)) == 0 && w.labelPods(r.Name) > 0 {
+					shape = true
+				}
+			}
+			w.cl.failMask, w.cl.listCalls, w.cl.faultsHit = mask, 0, 0
+			acc, sig, msg := w.do(r)
+			hit := w.cl.faultsHit
+			w.cl.failMask, w.cl.listCalls, w.cl.faultsHit = 0, 0, 0
+			if hit > 0 {
+				faultReqs++
+				if r.Kind == "delete" {
+					faultDeletes++
+					if shape {
+						faultDeletesWithPods++
+					}
+				} else {
+					faultIsParent++
+				}
+				if acc {
+					admittedDespiteFault++
+				}
+			}
+			if sig != "" {
+				if c.Violation(t, sig, "%s\nhistory:%s", msg, w.histStr()) {
+					dead = true
+				}
+			}
+		}
+		genMask := func(t *rapid.T) int {
+			switch c15U(t, 8, "faultMask") {
+			case 4, 5:
+				return 1 // the first List of the request (the quota-name label lookup)
+			case 6:
+				return 0xffff // every List
+			case 7:
+				return 1 << c15U(t, 3, "faultCall") // one particular call
+			}
+			return 0
+		}
+		user := func() []string {
+			var out []string
+			for _, n := range vk.SortedKeys(w.model) {
+				if n != c15Root && n != c15System && n != c15Default {
+					out = append(out, n)
+				}
+			}
+			return out
+		}
+		kinds := []string{"createUnder", "createUnder", "create", "create", "pod", "pod", "pod", "delete", "delete", "delete", "delete", "isParent", "isParent", "update"}
+		t.Repeat(map[string]func(*rapid.T){
+			"request": func(t *rapid.T) {
+				if dead {
+					return
+				}
+				k := c15Pick(t, kinds, "kind")
+				names := user()
+				if len(names) == 0 && (k == "delete" || k == "isParent" || k == "update") {
+					k = "create"
+				}
+				switch k {
+				case "create":
+					o := c15GenCreate(t, w, "")
+					send(t, c15Req{Kind: "create", Name: o.Name, Obj: o}, 0)
+				case "createUnder":
+					under := ""
+					if ps := w.parents(); len(ps) > 0 {
+						under = c15Pick(t, ps, "under")
+					}
+					o := c15GenCreate(t, w, under)
+					send(t, c15Req{Kind: "create", Name: o.Name, Obj: o}, 0)
+				case "pod":
+					pods := vk.SortedKeys(w.pods)
+					if len(pods) > 0 && c15U(t, 4, "podDel") == 3 {
+						w.delPod(c15Pick(t, pods, "pod"))
+						return
+					}
+					q := ""
+					if len(names) > 0 && c15U(t, 8, "podOfStoredQuota") < 6 {
+						q = c15Pick(t, names, "podQuota") // a pod linked to an admitted quota by the label
+					} else if c15U(t, 2, "podLabelled") == 1 {
+						q = c15Pick(t, c15Names, "podQuota")
+					}
+					w.addPod(c15Pick(t, append([]string{"default"}, c15NSs...), "podNS"), q)
+				case "delete":
+					var withPods []string // childless quotas that labelled pods link to: the delete must not be admitted
+					for _, n := range names {
+						if len(w.children(n)) == 0 && w.labelPods(n) > 0 {
+							withPods = append(withPods, n)
+						}
+					}
+					target := ""
+					if len(withPods) > 0 && c15U(t, 4, "deleteQuotaWithPods") < 3 {
+						target = c15Pick(t, withPods, "target")
+					} else {
+						target = c15Pick(t, names, "target")
+					}
+					send(t, c15Req{Kind: "delete", Name: target}, genMask(t))
+				case "isParent": // the other caller of the pod lists: is-parent false -> true
+					x := c15Pick(t, names, "target")
+					o := w.model[x].obj.DeepCopy()
+					if o.Labels == nil {
+						o.Labels = map[string]string{}
+					}
+					if w.model[x].isParent {
+						o.Labels[c15LIsParent] = "false"
+					} else {
+						o.Labels[c15LIsParent] = "true"
+					}
+					send(t, c15Req{Kind: "update", Name: x, Obj: o}, genMask(t))
+				case "update":
+					x := c15Pick(t, names, "target")
+					send(t, c15Req{Kind: "update", Name: x, Obj: c15GenUpdate(t, w, x)}, genMask(t))
+				}
+			},
+		})
+		w.classes(c)
+		c.ClassIf(faultReqs > 0, "pod-list-fault-hit-a-request")
+		c.ClassIf(faultDeletes > 0, "pod-list-fault-during-delete")
+		c.ClassIf(faultDeletesWithPods > 0, "pod-list-fault-during-delete-of-childless-quota-with-labelled-pods")
+		c.ClassIf(faultIsParent > 0, "pod-list-fault-during-update(is-parent change)")
+		c.ClassIf(admittedDespiteFault > 0, "request-admitted-although-a-pod-list-failed(not asserted as such)")
+		if faultDeletesWithPods > 0 {
 			c.NonTrivial(w.hist)
 		}
 		if c.WantSample() {
